@@ -2,7 +2,7 @@
 P: number ranges for all integers (linear arithmetic over a key view), partition of a key list (first offending key
 decides the exception), sanitize / __add__ (set + sort(key=int) as assumed library functions).  B: tree extraction,
 Cartesian-product identity of generate_possible_content_evaluation_results (itertools: bounded only)."""
-from checks.common import prove, run_bounded
+from checks.common import encapsulation_obligations, prove, run_bounded
 from vlib.report import Ctx
 
 LEVEL = "other"
@@ -25,4 +25,5 @@ def run(ctx: Ctx) -> None:
     ctx.trust("A-STDLIB set / list.sort(key=int)", "A-LARK-TREE (scan_values) for tree input: bounded only",
               "itertools.combinations / product: bounded only")
     prove(ctx, TARGETS)
+    encapsulation_obligations(ctx, cached_function_private=False)
     run_bounded(ctx, "C18")
